@@ -137,6 +137,20 @@ def classify(node: ast.AST, accepted: Sequence[str], int_context: bool = False, 
             if diffs and (best is None or len(diffs) < len(best)):
                 best, best_p = diffs, p
     if best is not None and len(best) <= 3:
+        # a difference that consists only of FRESH names (names that occur in none of the accepted forms) is a renaming of
+        # locals, not a wrong operand: no verdict.  A name that plays another role in the accepted forms (x2 where x1 is
+        # required) stays a violation.
+        import re as _re
+
+        known = {n_.id for p_ in pats for n_ in ast.walk(p_) if isinstance(n_, ast.Name)}
+        name_diffs = [_re.match(r".*: name `([^`]+)` where `([^`]+)` is required$", d_) for d_ in best]
+        if all(m_ is not None for m_ in name_diffs) and all(m_.group(1) not in known for m_ in name_diffs):
+            ren = {}
+            consistent = True
+            for m_ in name_diffs:
+                consistent = consistent and ren.setdefault(m_.group(2), m_.group(1)) == m_.group(1)
+            if consistent and len(set(ren.values())) == len(ren):
+                return UNDECIDED, f"differs from the closed form `{unparse(best_p)}` only in the names of locals ({', '.join(f'{b_} -> {a_}' for b_, a_ in ren.items())}): a renaming is not a verdict", None
         return VIOLATION, f"differs from the closed form `{unparse(best_p)}`: " + "; ".join(best), None
     return UNDECIDED, f"shape `{unparse(cn)}` is none of the known forms of `{unparse(pats[0])}`", None
 
